@@ -1406,6 +1406,25 @@ def c16_traces(res):
                 t.line(2, "NAMES " + ch)
                 t.meta = {"pre": pre, "founder_leaves_first": swap, "exits": [e1, e2]}
                 traces.append(t)
+    # one JOIN line that names a channel twice and goes on: the repeat is skipped, every later entry is decided for its own name -
+    # an existing channel is not born again, the fresh ones get their founder (seeded C16-a)
+    for k2, line in enumerate(["JOIN #room,#room,#fresh", "JOIN #n1,#n1,#n2,#room", "JOIN #room,#n1,#room,#n1,#n2", "JOIN #pre,#pre,#room,&loc"]):
+        t = Trace("c16-repeat-%d" % k2, Config(channels=[dict(name="#pre", topic="Pre", flags="nt", founders=["alice"])]))
+        t.register(0, "alice")
+        t.register(1, "bob")
+        t.register(2, "carol")
+        t.line(0, "JOIN #room")
+        t.line(0, "TOPIC #room :first life")
+        t.line(0, "MODE #room +m")
+        t.line(2, "JOIN #room")
+        t.line(1, line)
+        for chn in ("#room", "#fresh", "#n1", "#n2", "#pre", "&loc"):
+            t.line(1, "NAMES " + chn)
+        t.line(1, "MODE #room")
+        t.line(1, "TOPIC #room")
+        t.line(2, "LIST")
+        t.meta = {"pre": True, "repeat": line}
+        traces.append(t)
     # "give the configured ranks to the listed nicknames whenever these join": every subset of the five rank lists for one
     # nick (so: nicks listed in several lists), joining, leaving and joining again, next to a nick listed nowhere
     for k2, sub in enumerate(RANK_SUBSETS):
@@ -3742,6 +3761,32 @@ def c12_pairs(res):
 def check_C12(res):
     pairs = c12_pairs(res)
     traces = [t for p in pairs for t in p]
+    # a former member is an outsider: the last member of a configured channel (which stays) or of an ordinary one (which goes and
+    # is created anew) leaves by PART / KICK / is the only one left after the others went, an invisible user joins, the former
+    # member asks (seeded C12-d: the leaver's own channel set kept the name)
+    for k2, how in enumerate(["PART", "KICKSELF", "KICKED"]):
+        for chn in ("#pre", "#ord"):
+            t = Trace("c12-ex-member-%s-%s" % (how, chn[1:]), Config(channels=[dict(name="#pre", topic="Pre", flags="nt")]))
+            t.register(0, "alice")
+            t.register(1, "ghost")
+            t.register(2, "carol")
+            t.line(1, "MODE ghost +i")
+            t.line(0, "JOIN " + chn)
+            if how == "KICKED":
+                t.line(2, "JOIN " + chn)
+                t.line(0, "MODE %s +o carol" % chn)
+                t.line(2, "PART " + chn) if chn == "#ord" else t.line(2, "KICK %s alice" % chn)
+                t.line(0, "PART " + chn) if chn == "#ord" else t.line(2, "PART " + chn)
+            elif how == "KICKSELF":
+                t.line(0, "KICK %s alice" % chn)
+                t.line(0, "PART " + chn)
+            else:
+                t.line(0, "PART " + chn)
+            t.line(1, "JOIN " + chn)
+            for q in ("WHO ghost", "WHO *", "WHO g*", "WHO " + chn, "WHOIS ghost", "WHOIS gh*", "WHOIS carol,ghost", "NAMES " + chn, "NAMES"):
+                t.line(0, q)
+                t.line(2, q)
+            traces.append(t)
     n = 60 if res.tier == "quick" else 1000
     prof = {"weights": dict(LIST=8, NAMES=10, WHO=14, WHOIS=12, JOIN=10, MODE=10, UMODE=8, PRIVMSG=4, PART=2, NICK=2), "max_conns": 6, "initial_conns": 4,
             "p_channels": 1.0}
